@@ -112,8 +112,24 @@ def rawtok(X, Y, Z):
     return "%x.%x.%x" % (X % P, Y % P, Z % P)
 
 
+_POOL = []
+
+
 def rand_point(rng):
-    return smul(rng.randrange(1, R), G)
+    """random subgroup point; after a warm-up of real scalar multiplications new points are
+    sums/differences of earlier ones (python modular inversion is slow)"""
+    if len(_POOL) < 12:
+        p = smul(rng.randrange(1, R), G)
+    else:
+        a, b = rng.choice(_POOL), rng.choice(_POOL)
+        p = add(a, b if rng.random() < 0.5 else neg(b))
+        if p[0] == 0:
+            p = add(p, G)
+    if len(_POOL) < 4000:
+        _POOL.append(p)
+    else:
+        _POOL[rng.randrange(len(_POOL))] = p
+    return p
 
 
 def rand_fr(rng):
